@@ -59,6 +59,9 @@ def jval(x):
     return x
 
 
+_FIRST_DTYPE: dict = {}
+
+
 def run_call(c, keep=None):
     """Execute one recorded call; returns a JSON-able outcome.  keep: list that receives created bitstring objects."""
     import bitstring
@@ -155,8 +158,12 @@ def run_call(c, keep=None):
             sc = d.scale
             if isinstance(probe, (int, float)) and not isinstance(probe, bool):
                 probe = repr(float(probe))          # T12: 6 and 6.0 are the same result
+            # the first Dtype ever made from these arguments in this process is kept: one made now must equal it (and hash alike)
+            k = (c['tok'], c['len'], None if c.get('scale') is None else float(c['scale']))
+            first = _FIRST_DTYPE.setdefault(k, d)
+            same = [bool(d == first), bool(first == d), hash(d) == hash(first), not (d != first)]
             return ['ok', [d.name, d.length, d.bitlength, None if sc is None else float(sc), d.variable_length,
-                           str(d) if sc is None else None, probe]]
+                           str(d) if sc is None else None, probe, same]]
         if kind == 'array-dtype':
             a = Array(c['tok'], c['items'])
             return ['ok', [str(a.dtype), a.itemsize, a.data.bin if len(a.data) else '']]
